@@ -48,7 +48,15 @@ type c04Tag struct {
 
 func c04Tags(r *core.Rand, k int) c04Tag {
 	m := fmt.Sprintf("M%dq", k)
-	switch r.Intn(7) {
+	switch r.Intn(8) {
+	case 7:
+		// body filters that leave text without '<' and '>' alone: every byte of the body must come out as it went in
+		body := strings.NewReplacer("<", "(", ">", ")", "{{", "{ ", "{%", "{ ", "{#", "{ ", "\\", "/").Replace(c04Segment(r)) + m
+		if strings.HasSuffix(body, "{") {
+			body += "."
+		}
+		w := [][2]string{{"{% spaceless %}", "{% endspaceless %}"}, {"{% apply spaceless %}", "{% endapply %}"}, {"{% apply raw %}", "{% endapply %}"}}[r.Intn(3)]
+		return c04Tag{w[0] + body + w[1], body}
 	case 0, 1, 2:
 		return c04Tag{"{{ v" + fmt.Sprint(k%4) + " }}", "V" + fmt.Sprint(k%4) + "v"}
 	case 3:
@@ -159,6 +167,10 @@ func (p *c04) Run(rec *core.Recorder, seed uint64, idx int, tier string) {
 	}
 	if idx%24 == 3 {
 		p.escaped(rec, r)
+		return
+	}
+	if idx%24 == 9 {
+		p.stray(rec, r)
 		return
 	}
 	switch idx % 6 {
@@ -330,6 +342,42 @@ func (p *c04) escaped(rec *core.Recorder, r *core.Rand) {
 	if !strings.Contains(up, body) {
 		rec.Violate("escaped-text-lost", fmt.Sprintf("escaped-lost:pos%d", pos),
 			fmt.Sprintf("literal text behind an escaped delimiter is missing from the output %s (expected to contain %s); template %s", core.Q(core.Trunc(res.Out, 200)), core.Q(esc[1:]), core.Q(t["main"])), cs, "")
+	}
+}
+
+// stray: a closing or middle tag with nothing open. Rejecting the template is fine; accepting it and dropping the literal text
+// that follows is not (every byte outside the delimiters appears in the output).
+func (p *c04) stray(rec *core.Recorder, r *core.Rand) {
+	tags := []string{"{% endif %}", "{% endfor %}", "{% else %}", "{% elseif yes %}", "{% endblock %}", "{% endmacro %}", "{% endapply %}", "{% endverbatim %}", "{% endspaceless %}", "{%- endif -%}", "{% endif %}{% endif %}"}
+	tag := tags[r.Intn(len(tags))]
+	a, b := "A"+c04Segment(r)+"a", "b"+c04Segment(r)+"B"
+	a, b = strings.NewReplacer("{{", "{ ", "{%", "{ ", "{#", "{ ", "\\", "/").Replace(a), strings.NewReplacer("{{", "{ ", "{%", "{ ", "{#", "{ ", "\\", "/").Replace(b)
+	var src string
+	switch r.Intn(4) {
+	case 0:
+		src = a + tag + b
+	case 1:
+		src = a + "{% if yes %}in{% endif %}" + tag + b
+	case 2:
+		src = a + "{{ v0 }}" + tag + b + "{{ v1 }}"
+	default:
+		src = a + tag + "{% if yes %}" + b + "{% endif %}"
+	}
+	rec.Eval("stray-tag", src, true)
+	res := renderFresh(map[string]string{"main": src}, "main", c04Ctx(), nil)
+	cs := map[string]any{"source": fmt.Sprintf("%q", core.Trunc(src, 600))}
+	if res.Panicked {
+		rec.Violate("panic", "panic@"+res.Site, "engine panicked: "+res.PanicVal, cs, res.Stack)
+		return
+	}
+	if res.Err != nil {
+		rec.Count("stray-tag-rejected", 1)
+		return
+	}
+	rec.Count("stray-tag-accepted", 1)
+	if !strings.Contains(res.Out, a) || !strings.Contains(res.Out, b) || strings.Index(res.Out, a) > strings.LastIndex(res.Out, b) {
+		rec.Violate("exact-text", "c04-stray-tag-drops-text:"+strings.Fields(strings.Trim(tag, "{}%- "))[0],
+			fmt.Sprintf("a template with the stray tag %s was accepted, but literal text around it is missing from the output %s; source %s", tag, core.Q(core.Trunc(res.Out, 200)), core.Q(core.Trunc(src, 300))), cs, "")
 	}
 }
 
